@@ -1,1 +1,18 @@
 import Reamber.Props.C06
+#print axioms Reamber.Qua.consts_tie
+#print axioms Reamber.Qua.qua_read_defaults
+#print axioms Reamber.Qua.qua_read_write
+#print axioms Reamber.Qua.closeChart_quantize
+#print axioms Reamber.Qua.qua_write_keys
+#print axioms Reamber.Qua.readNotes_write
+#print axioms Reamber.Qua.truncI_close
+#print axioms Reamber.Qua.tagsOf_joinTags
+#print axioms Reamber.Qua.tagsOf_ok
+#print axioms Reamber.Qua.omitted_keysounds_counterexample
+#print axioms Reamber.Qua.converted_chart_counterexample
+#print axioms Reamber.Qua.string_isv_counterexample
+#print axioms Reamber.Qua.default_meta_typed
+#print axioms Reamber.Qua.qua_write_keys_default
+#print axioms Reamber.Qua.qua_write_denotes
+#print axioms Reamber.Qua.qua_write_read
+#print axioms Reamber.Qua.readMeta_metaOk
